@@ -4,6 +4,9 @@ import (
 	"bufio"
 	"fmt"
 	"os"
+	"reflect"
+	"runtime"
+	"strings"
 	"testing"
 )
 
@@ -30,7 +33,15 @@ func TestVerifC17Dump(t *testing.T) {
 		for _, a := range r.args {
 			fmt.Fprintf(w, " %d", uint16(a))
 		}
-		fmt.Fprintln(w)
+		// which predicate is attached: the linker's name of the function value (package path stripped)
+		cn := "-"
+		if r.canDecode != nil {
+			cn = runtime.FuncForPC(reflect.ValueOf(r.canDecode).Pointer()).Name()
+			if k := strings.LastIndex(cn, "."); k >= 0 {
+				cn = cn[k+1:]
+			}
+		}
+		fmt.Fprintf(w, " %s\n", cn)
 		if r.op > maxOp {
 			maxOp = r.op
 		}
@@ -47,6 +58,9 @@ func TestVerifC17Dump(t *testing.T) {
 		{"arg_Wd", arg_Wd}, {"arg_Wn", arg_Wn}, {"arg_Wm", arg_Wm}, {"arg_Wa", arg_Wa}, {"arg_Wt", arg_Wt}, {"arg_Wt2", arg_Wt2}, {"arg_Ws", arg_Ws},
 		{"arg_conditional", arg_conditional}, {"arg_Rt_31_1__W_0__X_1", arg_Rt_31_1__W_0__X_1},
 		{"arg_immediate_0_63_b5_b40", arg_immediate_0_63_b5_b40},
+		{"arg_immediate_shift_64_implicit_imm16_hw", arg_immediate_shift_64_implicit_imm16_hw},
+		{"arg_immediate_OptLSL_amount_16_0_48", arg_immediate_OptLSL_amount_16_0_48},
+		{"arg_Xns_mem_optional_imm12_8_unsigned", arg_Xns_mem_optional_imm12_8_unsigned},
 	}
 	for _, k := range kinds {
 		fmt.Fprintf(w, "kind %s %d\n", k.n, uint16(k.v))
